@@ -258,6 +258,12 @@ def f8_escape(ctx, repo):
     uses = [norm(n) for n in ast.walk(sa.node) if isinstance(n, ast.BinOp) and isinstance(n.op, ast.Mod) and "value" in norm(n.right)]
     ok = ok and all("escapeattr(value)" in u for u in uses) and bool(uses)
     ctx.ob("F8", sa.where, f"attribute values formatted as {uses}", ok, "" if ok else "an attribute value is interpolated without escapeattr")
+    # comments: '--' may not occur inside <!-- ... -->; the escaped text must also have every '--' broken up (to a fixpoint)
+    cm = m.func("XMLWriter.comment")
+    neut = [n for n in ast.walk(cm.node) if isinstance(n, ast.Call) and last_attr(n) == "replace" and n.args and try_fold(n.args[0]) == "--" and "--" not in str(try_fold(n.args[1]))]
+    loop = any(isinstance(w, ast.While) and "'--' in" in norm(w.test) and any(x in ast.walk(w) for x in neut) for w in ast.walk(cm.node))
+    ok = bool(neut) and (loop or any(isinstance(n, ast.Call) and norm(n.func).endswith("re.sub") for n in ast.walk(cm.node)))
+    ctx.ob("F8", cm.where, "comment text has every '--' broken up (replace inside `while '--' in data`)", ok, "" if ok else "font-controlled text containing '--' (or '---', which one replace() pass leaves as '- --') makes the dump unparseable")
     esc = m.func("escape")
     rep = {try_fold(c.args[0]): try_fold(c.args[1]) for c in calls_in(esc.node) if last_attr(c) == "replace" and len(c.args) == 2}
     ok = rep.get("&") == "&amp;" and rep.get("<") == "&lt;" and rep.get(">") == "&gt;"
